@@ -15,23 +15,29 @@
    Transcribed: lib/ext2fs/closefs.c ext2fs_bg_has_super (through Geometry!BgHasSuper), ext2fs_super_and_bgd_loc2 (Loc),
    ext2fs_flush2 with EXT2_FLAG_MASTER_SB_ONLY / EXT2_FLAG_SUPER_ONLY (FlushSb, FlushGd, FlushMg), lib/ext2fs/openfs.c ext2fs_open2 +
    ext2fs_descriptor_block_loc2 when opened from a backup (ReadFrom), e2fsck/super.c check_backup_super_block and
-   e2fsck/unix.c main (FsckRepair), e2fsck/util.c get_backup_sb (ListedGroups, SearchPicks), resize/resize2fs.c adjust_fs_info's
+   e2fsck/unix.c main (FsckRepair), e2fsck/util.c get_backup_sb with its loop over block sizes, its guess of the group size
+   and its probe arithmetic (SearchSizes, GuessBpg, IterHits, Search; constants in BackupSearch.tla), resize/resize2fs.c adjust_fs_info's
    sparse_super2 rules (ResizeBk) and resize_fs's final close, misc/tune2fs.c main (MASTER_SB_ONLY cleared at open,
    SUPER_ONLY set unless a request clears it), lib/ext2fs/initialize.c's s_backup_bgs normalisation (MkfsBk).
-   s_first_meta_bg = 0 throughout (the tools in scope never produce another value; assumption stated in evidence).  *)
-EXTENDS Geometry, Integers
+   s_first_meta_bg = 0 throughout (the tools in scope never produce another value; assumption stated in evidence).
+     geo       [bs, bpg, first]: block size, blocks per group, s_first_data_block -- fixed by mke2fs, no tool changes them  *)
+EXTENDS Geometry, Integers, BackupSearch
 CONSTANTS MaxG,                     \* bound on the number of groups (domain of sbk / gdk)
           DevTuneMasterOnly,        \* negative controls / named deviations (all FALSE for the repaired behaviour):
           DevFsckIgnoresFeatDiff,   \*   tune2fs leaves MASTER_SB_ONLY set; check_backup_super_block ignores feature words;
           DevFlushSkipsLast,        \*   write_backup_super skipped for the last backup group;
           DevResizeKeepsOldGdt,     \*   resize2fs does not rewrite the descriptor backups of groups that existed before
           DevResizeMovesSoleBackup, \*   literal adjust_fs_info (fixes/C20_1_resize_ss2_sole_backup.patch repairs it)
-          DevBackupSearchIgnoresSs2 \*   KNOWN FINDING (enabled in the conformance cfg): e2fsck's own search for a backup
+          DevBackupSearchIgnoresSs2,\*   KNOWN FINDING (enabled in the conformance cfg): e2fsck's own search for a backup
                                     \*   (get_backup_sb) probes the sparse_super list 1, 3, 5, 7, 9, 25, ... and takes the first
                                     \*   block that looks like a superblock: it does not know s_backup_bgs and it accepts a stale
                                     \*   copy that an earlier geometry left in a group that no longer is a backup group
-VARIABLES prim, sbk, gdk, mgk, last, steps, saved, rec
-vars == <<prim, sbk, gdk, mgk, last, steps, saved, rec>>
+          DevSearchGuesses8xBs      \*   literal get_backup_sb: when no superblock could be opened the group size is guessed as
+                                    \*   8 * blocksize for EVERY block size, although no group is larger than 65528 blocks: the
+                                    \*   probes miss every backup of a default-geometry filesystem with 8k ... 64k blocks
+                                    \*   (fixes/C20_backup_search_bpg.patch repairs it: min(8 * blocksize, 65528))
+VARIABLES prim, sbk, gdk, mgk, last, steps, saved, rec, geo
+vars == <<prim, sbk, gdk, mgk, last, steps, saved, rec, geo>>
 
 MaxM == MaxG \div 2                 \* more meta groups than any dpb >= 2 can give
 MgKeys == (0..MaxM) \X {1, 2}
@@ -110,8 +116,12 @@ Flush(s, gd, master, superonly) ==
    /\ gdk' = FlushGd(s, gd, master, superonly, gdk)
    /\ mgk' = FlushMg(s, gd, superonly, mgk)
 
+NoGeo == [bs |-> 0, bpg |-> 0, first |-> 0]
+\* what mke2fs accepts (misc/mke2fs.c "blocks per group count out of range", ext2fs_initialize's clamp)
+GeoOK(ge) == /\ ge.bs \in BlockSizes /\ ge.first = FirstData(ge.bs)
+             /\ ge.bpg % 8 = 0 /\ ge.bpg >= 256 /\ ge.bpg <= DefaultBpg(ge.bs)
 Blank == /\ prim = [sb |-> <<>>, gd |-> <<>>] /\ sbk = NoSb /\ gdk = NoSb /\ mgk = NoMg
-         /\ last = "mkfs" /\ steps = 0 /\ saved = prim /\ rec = "blank"
+         /\ last = "mkfs" /\ steps = 0 /\ saved = prim /\ rec = "blank" /\ geo = NoGeo
 Alive == prim.sb # <<>> /\ rec = "none"
 Cur == prim.sb[1]
 SameBut(a, b, fields) == \A f \in (DOMAIN a) \ fields : a[f] = b[f]
@@ -120,8 +130,8 @@ WellFormed(s) == /\ s.gdc >= 1 /\ s.gdc <= MaxG /\ s.dpb >= 2
 
 \* ------------------------------------------------------------------ the tools
 \* mke2fs: ext2fs_initialize does not set MASTER_SB_ONLY; the closing flush writes everything
-Mkfs(s, gd) ==
-   /\ WellFormed(s) /\ Len(gd) = DescB(s)
+Mkfs(s, gd, ge) ==
+   /\ WellFormed(s) /\ Len(gd) = DescB(s) /\ GeoOK(ge) /\ geo' = ge
    /\ prim' = [sb |-> <<s>>, gd |-> gd]
    /\ sbk' = Clobber(s, FALSE, FlushSb(s, FALSE, NoSb)) /\ gdk' = FlushGd(s, gd, FALSE, FALSE, NoSb) /\ mgk' = FlushMg(s, gd, FALSE, NoMg)
    /\ last' = "mkfs" /\ steps' = 0 /\ saved' = prim' /\ rec' = "none"
@@ -137,14 +147,14 @@ Resize(s, gd) ==
    /\ gdk' = LET L == GdLocs(s) IN
               [g \in 1..MaxG |-> IF g \in L /\ ~(DevResizeKeepsOldGdt /\ g < Cur.gdc /\ gdk[g] # <<>>) THEN <<gd>> ELSE gdk[g]]
    /\ mgk' = FlushMg(s, gd, FALSE, mgk)
-   /\ last' = "resize" /\ steps' = steps + 1 /\ UNCHANGED <<saved, rec>>
+   /\ last' = "resize" /\ steps' = steps + 1 /\ UNCHANGED <<saved, rec, geo>>
 
 \* resize2fs -b / -s: descriptor size (hence dpb) and the 64bit feature change, group count does not
 Resize64(s, gd) ==
    /\ Alive /\ WellFormed(s) /\ Len(gd) = DescB(s)
    /\ SameBut(s, Cur, {"dpb", "feat", "fixed", "rsv"}) /\ s.dpb # Cur.dpb
    /\ Flush(s, gd, FALSE, FALSE)
-   /\ last' = "resize" /\ steps' = steps + 1 /\ UNCHANGED <<saved, rec>>
+   /\ last' = "resize" /\ steps' = steps + 1 /\ UNCHANGED <<saved, rec, geo>>
 
 \* tune2fs: main() clears MASTER_SB_ONLY right after open, so every flush writes the backup superblocks; descriptors
 \* are written only when the request cleared SUPER_ONLY (their table locations do not change, only checksums / flags)
@@ -154,7 +164,7 @@ Tune(s, gd, what, full) ==
    /\ (Cur.sparse => s.sparse)                                           \* sparse_super can be set, never cleared
    /\ Len(gd) = DescB(s) /\ (~full => gd = prim.gd)
    /\ Flush(s, gd, DevTuneMasterOnly, ~full)
-   /\ last' = "tune" /\ steps' = steps + 1 /\ UNCHANGED <<saved, rec>>
+   /\ last' = "tune" /\ steps' = steps + 1 /\ UNCHANGED <<saved, rec, geo>>
 \* (a request that changes nothing -- the UUID it already has -- is still a flush of every superblock copy)
 TuneFeature(s, gd, full) == Tune(s, gd, {"feat", "sparse"}, full)
 TuneUUID(s, gd, full)    == Tune(s, gd, {"uuid"}, full)
@@ -166,7 +176,7 @@ EnvPrimary(s, gd) ==
    /\ Alive /\ last # "env" /\ WellFormed(s)
    /\ SameBut(s, Cur, {"feat"}) /\ Len(gd) = Len(prim.gd)
    /\ prim' = [sb |-> <<s>>, gd |-> gd]
-   /\ last' = "env" /\ UNCHANGED <<sbk, gdk, mgk, steps, saved, rec>>
+   /\ last' = "env" /\ UNCHANGED <<sbk, gdk, mgk, steps, saved, rec, geo>>
 
 \* check_backup_super_block: the first backup group whose copy looks like a superblock is compared with the primary
 FirstCopy == LET C == {g \in SbLocs(Cur) : sbk[g] # <<>>} IN IF C = {} THEN 0 ELSE SetMin(C)
@@ -178,7 +188,7 @@ FsckRepair(force) ==
    /\ LET s == Cur
           need == force \/ (FirstCopy # 0 /\ Differs(sbk[FirstCopy][1], s))
       IN Flush(s, prim.gd, ~need, FALSE)
-   /\ last' = "fsck" /\ steps' = steps + 1 /\ UNCHANGED <<saved, rec>>
+   /\ last' = "fsck" /\ steps' = steps + 1 /\ UNCHANGED <<saved, rec, geo>>
 
 \* what ext2fs_open2 reads when told to use the superblock copy of group g: the copy itself, then either the old-style
 \* table behind it or (meta_bg, ext2fs_descriptor_block_loc2) the copy in the SECOND group of every meta group -- the
@@ -194,21 +204,43 @@ ReadFrom(g, pgd) ==
                         IF mk \in ML THEN (IF mgk[mk] = <<>> THEN <<>> ELSE mgk[mk][1])
                         ELSE IF i <= Len(pgd) THEN pgd[i] ELSE <<>>]]
 
-\* the primary descriptors are bad but the primary superblock is fine: e2fsck "Group descriptors look bad... trying
-\* backup blocks": get_backup_sb probes groups 1, 3, 5, 7, 9, 25, 27, ... (ext2fs_list_backups) whatever the feature set
+\* ------------------------------------------------------------------ e2fsck/util.c get_backup_sb
+\* e2fsck's own search for a backup superblock.  Two callers' situations (e2fsck/unix.c main):
+\*   known = TRUE   "Group descriptors look bad... trying backup blocks": the primary superblock opened (fs->super), so the
+\*                  block size and s_blocks_per_group are known and exactly one iteration of the loop runs;
+\*   known = FALSE  "Superblock invalid, trying backup blocks": nothing is known; the loop tries EVERY block size from
+\*                  EXT2_MIN_BLOCK_SIZE to EXT2_MAX_BLOCK_SIZE inclusive and has to guess the group size of each.
+\* Each iteration probes the groups ext2fs_list_backups enumerates (1, 3, 5, 7, 9, 25, 27, ...) up to
+\* limit = <size in blocks> / <group size>, inclusive, and accepts the first block with the magic number whose
+\* s_log_block_size is the block size being tried.  The device is the image file: its size is the filesystem's.
 ListedGroups(n) == ClosedBackups(n) \ {0}
-\* which copy e2fsck's own search ends up with: literally the first listed group holding anything that parses; the repaired
-\* behaviour the property asks for = some prescribed copy
-SearchPicks == IF DevBackupSearchIgnoresSs2
-               THEN (LET C == {g \in ListedGroups(Cur.gdc) : sbk[g] # <<>>} IN IF C = {} THEN {} ELSE {SetMin(C)})
-               ELSE {g \in SbLocs(Cur) : sbk[g] # <<>>}
+SearchSizes(known) == LoopSizes(IF known THEN geo.bs ELSE MinBlockSize, known)
+GuessBpg(pb) == IF DevSearchGuesses8xBs THEN 8 * pb ELSE DefaultBpg(pb)       \* "this_bpg = bpg ? bpg : blocksize * 8"
+FsKib(s) == GroupAt(geo.bs, geo.bpg, geo.first, s.gdc)
+\* the groups whose superblock copy the iteration for block size pb reads and accepts.  s = the superblock the search is
+\* about (the primary as it is, or as it was before it was destroyed).  Repaired behaviour the property asks for
+\* (DevBackupSearchIgnoresSs2 = FALSE): the search reaches every group and accepts prescribed copies only.
+IterHits(s, known, pb) ==
+   LET tb == IF known THEN geo.bpg ELSE GuessBpg(pb)
+       limit == (FsKib(s) \div Kb(pb)) \div tb
+       P == IF DevBackupSearchIgnoresSs2 THEN ListedGroups(limit + 1) ELSE 1..limit
+   IN {g \in 1..MaxG : /\ geo.bs = pb                                        \* "EXT2_BLOCK_SIZE(sb) == blocksize"
+                       /\ sbk[g] # <<>>                                      \* "sb->s_magic == EXT2_SUPER_MAGIC"
+                       /\ (DevBackupSearchIgnoresSs2 \/ g \in SbLocs(s))
+                       /\ \E grp \in P : ProbeAt(pb, tb, grp) = GroupAt(geo.bs, geo.bpg, geo.first, g)}
+\* the copies the search can end with: literally the first hit of the first block size that has one
+Search(s, known) == LET Sz == {pb \in SearchSizes(known) : IterHits(s, known, pb) # {}} IN
+                    IF Sz = {} THEN {}
+                    ELSE LET H == IterHits(s, known, SetMin(Sz)) IN IF DevBackupSearchIgnoresSs2 THEN {SetMin(H)} ELSE H
+\* the primary descriptors are bad but the primary superblock is fine
+SearchPicks == Search(Cur, TRUE)
 FsckFromBackup ==
    /\ Alive /\ last = "env"
    /\ \E g \in SearchPicks :
          LET r == ReadFrom(g, prim.gd) IN
          /\ r.gd # <<>>
          /\ Flush(r.sb[1], r.gd, TRUE, FALSE)
-   /\ last' = "fsck" /\ steps' = steps + 1 /\ UNCHANGED <<saved, rec>>
+   /\ last' = "fsck" /\ steps' = steps + 1 /\ UNCHANGED <<saved, rec, geo>>
 \* a repairing e2fsck never replaces the superblock fields of a filesystem whose primary superblock was fine
 FsckKeeps == [][(last = "env" /\ last' = "fsck" /\ prim.sb # <<>>) => prim'.sb = prim.sb]_vars
 
@@ -220,12 +252,22 @@ DestroyPrimary ==
    /\ saved' = prim
    /\ prim' = [sb |-> <<>>, gd |-> IF Cur.metabg THEN [i \in 1..Len(prim.gd) |-> IF <<i - 1, 1>> \in MgLocs(Cur) THEN <<>> ELSE prim.gd[i]]
                                    ELSE <<>>]
-   /\ rec' = "destroyed" /\ UNCHANGED <<sbk, gdk, mgk, last, steps>>
+   /\ rec' = "destroyed" /\ UNCHANGED <<sbk, gdk, mgk, last, steps, geo>>
 \* e2fsck -b <first block of group g> -B <blocksize>
 RecoverFrom(g) ==
    /\ rec = "destroyed" /\ g \in SbLocs(saved.sb[1])
    /\ prim' = ReadFrom(g, prim.gd)
-   /\ rec' = "recovered" /\ UNCHANGED <<sbk, gdk, mgk, last, steps, saved>>
+   /\ rec' = "recovered" /\ UNCHANGED <<sbk, gdk, mgk, last, steps, saved, geo>>
+
+\* plain e2fsck -fy after DestroyPrimary: "Superblock invalid, trying backup blocks...".  The property obliges it "when the
+\* group size is the default" (and, like -b, when a prescribed backup exists); a search that finds nothing leaves the
+\* primary destroyed
+PlainObliged(s) == geo.bpg = DefaultBpg(geo.bs) /\ SbLocs(s) # {}
+RecoverPlain ==
+   /\ rec = "destroyed" /\ PlainObliged(saved.sb[1])
+   /\ LET F == Search(saved.sb[1], FALSE) IN
+        IF F = {} THEN prim' = prim ELSE \E g \in F : prim' = ReadFrom(g, prim.gd)
+   /\ rec' = "recovered" /\ UNCHANGED <<sbk, gdk, mgk, last, steps, saved, geo>>
 
 \* ------------------------------------------------------------------ invariants
 SbCurrent(g) == sbk[g] = prim.sb
@@ -249,5 +291,5 @@ Ss2Shape == Alive /\ Cur.ss2 =>
 \* recovery from ANY prescribed location gives back the superblock fields and table locations of the lost primary
 InvRecover == rec = "recovered" => prim = saved
 TypeOK == /\ last \in {"mkfs", "resize", "tune", "fsck", "env"} /\ rec \in {"blank", "none", "destroyed", "recovered"}
-          /\ steps \in 0..10
+          /\ steps \in 0..10 /\ (geo = NoGeo \/ GeoOK(geo))
 =============================================================================
